@@ -144,17 +144,19 @@ def lineComment : Input → Input
   | [] => []
   | r :: rest => if r.code == 10 then r :: rest else lineComment rest
 
-/-- general comment body; `prevStar` = the previous rune was '*'. -/
-def blockComment (prevStar : Bool) : Input → Input
-  | [] => []
+/-- general comment body; `prevStar` = the previous rune was '*'; `none` when the input ends inside
+the comment ("comment not terminated") -/
+def blockComment (prevStar : Bool) : Input → Option Input
+  | [] => none
   | r :: rest =>
-    if prevStar && r.code == 47 then rest
+    if prevStar && r.code == 47 then some rest
     else blockComment (r.code == 42) rest
 
 /-- Kinds of scanner tokens (`Scan`'s return value). -/
 inductive Kind where
   | eof | ident | delimIdent | int | float | string | rawString
   | char (c : Nat)
+  | openComment          -- the input ended inside a `/*` comment
 deriving Repr, DecidableEq
 
 def skipWs : Input → Input
@@ -194,7 +196,10 @@ def scanTok : Nat → Input → Option (Kind × Input × Input)
         match rest with
         | c :: rest' =>
           if c.code == 47 then scanTok fuel (lineComment rest')
-          else if c.code == 42 then scanTok fuel (blockComment false rest')
+          else if c.code == 42 then
+            match blockComment false rest' with
+            | some rest'' => scanTok fuel rest''
+            | none => some (.openComment, [], [])
           else done (.char 47) rest
         | [] => done (.char 47) rest
       else if r.code == 96 then
@@ -247,6 +252,9 @@ def scanAll : Nat → Input → List Token → ScanRes
     match scanTok (fuel+1) l with
     | none => .fuel
     | some (.eof, _, _) => .ok acc.reverse
+    -- a comment that is never closed swallowed the rest of the input: one ILLEGAL token in its place,
+    -- so that the parser refuses the statement (like an unterminated literal)
+    | some (.openComment, _, _) => .ok ((⟨t_ILLEGAL, [47, 42]⟩ :: acc).reverse)
     | some (.ident, rs, rest) =>
       let ty := match keywordOf (upperCodes rs) with | some k => k | none => t_IDENT
       scanAll fuel rest (⟨ty, textOf rs⟩ :: acc)
